@@ -421,7 +421,7 @@ theorem simulates : Simulates concrete tokenLevel abs (Inv F ext) := by
   | gate2 g v w => exact sim_gate2 h g v w env
   | meas v => exact sim_meas h v env
   | free v => exact sim_free h v env
-  | eprCreate ok v => simp [QReq.vanilla] at hv
-  | eprRecv s r v => simp [QReq.vanilla] at hv
+  | eprCreate ok bad v => simp [QReq.vanilla] at hv
+  | eprRecv s r bad v => simp [QReq.vanilla] at hv
 
 end SqVerif.NqExec
